@@ -428,10 +428,12 @@ class GreedySelector(SelectorMixin, MetaEstimatorMixin, BaseEstimator):
         scores = scorer(X, y)
 
         max_score_idx = np.argmax(scores)
-        if self.score_threshold is not None:
-            if self.first_score_ is None:
-                self.first_score_ = scores[max_score_idx]
+        if self.first_score_ is None:
+            # recorded whether or not a threshold is set: a relative threshold that
+            # is switched on before a warm start refers to the first selection too
+            self.first_score_ = scores[max_score_idx]
 
+        if self.score_threshold is not None:
             if self.score_threshold_type == "absolute":
                 if scores[max_score_idx] < self.score_threshold:
                     return None
